@@ -253,7 +253,16 @@ def config_spec(rng, naming=None, code=None, bus=None, nvals=None):
             continue
         seen.add((k, v))
         ents.append([k, v, rbytes(rng, rng.choice([8, 9, 12, 16, 24, 40])).hex()])
-    naming = rng.choice(["full", "full", "name-only", "none", "dev", "partial"]) if naming is None else naming
+    naming = rng.choice(["full", "full", "name-only", "none", "dev", "partial", "both"]) if naming is None else naming
+    if naming == "both":
+        # project AND device settings identification, different versions
+        pv = rng.randrange(100)
+        ents.append([0x0620, 0x01, rng.randrange(1, 99999).to_bytes(4, "big").hex()])
+        ents.append([0x0620, 0x05, rng.randrange(1, 9999).to_bytes(2, "big").hex()])
+        ents.append([0x0620, 0x07, bytes([pv]).hex()])
+        ents.append([0x0620, 0x04, bytes([(pv + rng.randrange(1, 99)) % 100]).hex()])
+        if rng.random() < 0.5:
+            ents.append([0x0620, 0x03, ("Dev%d" % rng.randrange(1000)).encode().hex()])
     if naming in ("full", "partial"):
         ents.append([0x0620, 0x01, rng.randrange(1, 99999).to_bytes(4, "big").hex()])
         if naming == "full":
